@@ -257,6 +257,41 @@ class G:
         return doc
 
 
+# ------------------------------------------------------------------- deterministic small-structure sweep
+GRID_BLOCKS = {"para": ["a"], "para2": ["a", "b"], "atx": ["# h"], "hr": ["***"], "html7": ["<d>"], "html6": ["<div>"], "html2": ["<!-- c -->"], "icode": ["    code"],
+               "fence": ["```", "code", "```"], "fence_info": ["~~~ x", "code", "~~~"], "quote": ["> q"], "bullet": ["- x"], "bullet2": ["- x", "- y"], "ol1": ["1. x"], "ol2": ["2. x"],
+               "empty_item": ["-"], "table": ["|a|", "|-|"], "refdef": ["[r]: /u"]}
+GRID_CONTEXTS = [("", ""), ("> ", "> "), ("- ", "  "), ("1. ", "   "), ("- > ", "  > ")]
+GRID_WORDS = ["a", "bb", "1.", "1)", "12.", "-", "+", "=", "#", ">", "*", "~~~", "<b>", "`c d`", "[l](u)", "x1", "9"]
+
+
+def grid_cases():
+    """documents small enough to be classified WITHOUT shrinking (so a new failure cannot slide into a known
+    class): every ordered pair of block forms, with and without a blank line between them, at top level, in a
+    block quote, in a bullet item, in an ordered item and in a quote inside an item; and every sequence of three
+    words from a marker-heavy vocabulary, joined by one or two spaces, at four wrap widths.  Independent of the seed."""
+    out = []
+    plain, gfm = {"unsafe": True}, {"unsafe": True, **{k: True for k in GFM}}
+    for first, rest in GRID_CONTEXTS:
+        for a in GRID_BLOCKS.values():
+            for b in GRID_BLOCKS.values():
+                for sep in ([""], []):
+                    lines = a + sep + b
+                    doc = "\n".join(((first if i == 0 else rest) + l).rstrip(" ") if l else rest.rstrip(" ") for i, l in enumerate(lines)) + "\n"
+                    out.append((doc, gfm))
+    for a in GRID_BLOCKS.values():
+        for b in GRID_BLOCKS.values():
+            out.append(("\n".join(a + [""] + b) + "\n", plain))
+            out.append(("\n".join(a + [""] + b) + "\n", {**gfm, "ol_width": 5, "list_style": "star"}))
+    for w1 in GRID_WORDS:
+        for w2 in GRID_WORDS:
+            for w3 in GRID_WORDS:
+                for sp in (" ", "  "):
+                    for width in (1, 4, 7, 10):
+                        out.append((f"aaaa {w1}{sp}{w2} {w3} dddd\n", {"unsafe": True, "width": width}))
+    return out
+
+
 def gen_feats(rng):
     """the construct set of one document: everything, or a small random subset (so that a failure can be
     attributed to few constructs), or one block family + one inline family"""
@@ -691,6 +726,26 @@ def p_emph_flank(case):
 
 def p_wrap(case, toks, fail):
     return case.width_induced(fail) and _line_starts(case, toks)
+
+
+_MARKER_TEXT = re.compile(rb"^(\d{1,9}[.)]([ \t]|$)|[-+=])")
+
+
+def marker_starts_inline_node(case):
+    """a Text literal begins with a list marker / setext character and the node before it ends the previous
+    output buffer with a breakable space (a soft break, written as a space under wrapping, or an inline whose
+    spelling ends in a space): output() protects a digit, `-`, `+`, `=` after the space only inside ONE buffer
+    (`buf.get(i + 1)` is None at the end of a buffer), so this is the one place where wrapping can still put a
+    marker first on a line"""
+    for t in texts(case.t1):
+        pv = t.prev()
+        if pv is not None and _MARKER_TEXT.match(t.lit()) and (pv.kind == "SoftBreak" or approx(pv).endswith(b" ")):
+            return True
+    return False
+
+
+def p_wrap_marker(case, fail):
+    return p_wrap(case, [b"-", b"+", b"=", b"1."], fail) and marker_starts_inline_node(case)
 
 
 def holder_line_texts(case):
@@ -1357,7 +1412,7 @@ def _c(f):
 
 
 CLASSES = {
-    "wrap_marker_line_start": lambda case, fail: p_wrap(case, [b"-", b"+", b"=", b"1."], fail),
+    "wrap_marker_line_start": lambda case, fail: p_wrap_marker(case, fail),
     # `~~~` is never escaped; "```" is only written bare inside a code span, whose content is wrapped too
     "wrap_tilde_fence_line_start": lambda case, fail: p_wrap(case, [b"~~~", b"```"], fail),
     "wrap_html_line_start": lambda case, fail: p_wrap(case, [b"<"], fail),
@@ -1618,6 +1673,37 @@ def run(c, prop, tier):
             c.known_hit(k, {"doc": hx(s.doc), "opts": docgen.opts_token(s.opts)})
         for f in u:
             feat_fail[f] = feat_fail.get(f, 0) + 1
+    # the deterministic small-structure sweep: classified WITHOUT shrinking (the documents are minimal already),
+    # so that a new failure cannot slide into a known class on the way down
+    gcases = grid_cases()
+    grecs = run_rt3(gcases, "release")
+    grid = {"documents": len(grecs), "failing": 0, "unclassified": 0, "per_class": {}}
+    for r in grecs:
+        c.count((docgen.opts_token(r.opts) + ":" + r.doc).encode("utf-8", "surrogatepass"), r.t1 is not None and r.t1.count("(") > 3)
+        if r.status != "ok":
+            c.violation("the harness died or hung on a round trip (small-structure sweep)", {"doc": hx(r.doc), "opts": docgen.opts_token(r.opts), "status": r.status[:200], "line": rt3_line(r.doc, r.opts)})
+            continue
+        if not fail(r, ask):
+            continue
+        grid["failing"] += 1
+        cl, _case = classify(r, fail, ask)
+        cl = [k for k in cl if k in known]
+        if not cl:
+            grid["unclassified"] += 1
+            unclassified += 1
+            if grid["unclassified"] <= 20:
+                c.violation(f"{prop}: round trip failure outside every known class (small-structure sweep, classified without shrinking)",
+                            {"doc": hx(r.doc), "opts": docgen.opts_token(r.opts), "doc_text": r.doc[:300],
+                             "c1": (r.bytes_of("c1") or b"").decode("utf-8", "replace")[:400], "c2": (r.bytes_of("c2") or b"").decode("utf-8", "replace")[:400],
+                             "h1": (r.bytes_of("h1") or b"").decode("utf-8", "replace")[:400], "h2": (r.bytes_of("h2") or b"").decode("utf-8", "replace")[:400],
+                             "line": rt3_line(r.doc, r.opts)})
+            continue
+        for k in cl:
+            grid["per_class"][k] = grid["per_class"].get(k, 0) + 1
+            c.known_hit(k, {"doc": hx(r.doc), "opts": docgen.opts_token(r.opts)})
+    grid["per_class"] = dict(sorted(grid["per_class"].items(), key=lambda kv: -kv[1]))
+    c.cov["spec_checks"][f"{prop} end-to-end equation on the deterministic small-structure sweep (block pairs x contexts, word triples x widths)"] = len(grecs)
+    c.cov["small_structure_sweep"] = grid
     proc.close()
     total = len(recs)
     c.cov["spec_checks"][f"{prop} end-to-end equation on generated documents x options"] = total
